@@ -479,6 +479,23 @@ Definition lower_importfrom (n : nsp) (p : path) (module : option ident) (names 
           else get_assign n asname (Attribute (Name tmp) (fst al))) names in
   ret (imp :: binds).
 
+(* the two hooks type.__new__ turns into class methods when (and only when) the member is a plain function: the class is
+   created empty and filled with setattr, so the converter does it - unconditionally without decorators, behind a run-time test
+   of what the decorators returned otherwise (fix: `@classmethod` written out was wrapped twice) *)
+Definition is_class_hook (name : ident) : bool := String.eqb name "__init_subclass__" || String.eqb name "__class_getitem__".
+Definition hook_wrap (p : path) (is_method : bool) (name : ident) (decs : list expr) (decorated : expr) : expr :=
+  if is_method && is_class_hook name then
+    match decs with
+    | [] => call (Name "classmethod") [decorated]
+    | _ =>
+        let hook := ol "hook" (path_str p) in
+        call (Lambda [] [hook] None [] [] None []
+                (IfExp (Compare (call (Name "type") [Name hook]) [Is] [call (Name "type") [lambda0 (cint 0)]])
+                       (call (Name "classmethod") [Name hook]) (Name hook)))
+             [decorated]
+    end
+  else decorated.
+
 (* ---------- statements ---------- *)
 Section Stmts.
   Variable cfg : config.
@@ -652,8 +669,7 @@ Section Stmts.
                      | [] => ret acc
                      | d :: r => let! d' := tr n d in go r (call d' [acc])
                      end) (rev decs) lam in
-                let final := if n_is_method fn && String.eqb name "__init_subclass__"
-                             then call (Name "classmethod") [decorated] else decorated in
+                let final := hook_wrap p (n_is_method fn) name decs decorated in
                 let! e := get_assign n name final in ret [e]
             | _ => fail EAssert
             end
